@@ -38,6 +38,12 @@ def f_r1_funnel(schema: Schema, rep: Report):
             for a in apps:
                 arg = ex.x(a.args[0]) if a.args else None
                 good = isinstance(arg, ast.Call) and isinstance(arg.func, ast.Attribute) and arg.func.attr == "convert"
+                if not good and isinstance(arg, ast.Name):
+                    # the loop variable of `for x in map(<converter>.convert, args)`
+                    for lp_ in [x for x in ast.walk(fn) if isinstance(x, ast.For) and isinstance(x.target, ast.Name) and x.target.id == arg.id]:
+                        it_ = lp_.iter
+                        if isinstance(it_, ast.Call) and isinstance(it_.func, ast.Name) and it_.func.id == "map" and it_.args and isinstance(it_.args[0], ast.Attribute) and it_.args[0].attr == "convert":
+                            good = True
                 if not good:
                     ok = False
             if chains_to_super(fn, "_apply_args", star_args=False)[0]:
